@@ -434,6 +434,87 @@ fn enumerate(t: Tier, shard: usize, nshards: usize, f: &mut dyn FnMut(Case) -> b
 
 /// Cube is used in signatures above
 #[allow(dead_code)]
+// ---------------------------------------------------------------------------------------------
+// covers of more than 2^16 cubes: the statement bounds neither the number of variables nor the
+// number of cubes of an operand ("whatever cubes the operands were built from")
+
+#[derive(Clone, Debug, Hash, Serialize, Deserialize)]
+pub struct ManyCase {
+    pub n: usize,
+    /// odd multiplier and offset of the bijection k -> (k * mul + off) mod 2^n that picks the minterms
+    pub mul: u32,
+    pub off: u32,
+    pub na: usize,
+    pub nb: usize,
+    /// minterms common to both operands
+    pub overlap: usize,
+    pub probes: Vec<u32>,
+}
+
+fn strategy_many(t: Tier) -> BoxedStrategy<ManyCase> {
+    // totals around 2^16 (and, thorough only, around 2^17): simplification is quadratic in the
+    // number of cubes, about 2 s per case at 2^16 in a release build
+    let total = match t {
+        Tier::Quick => prop_oneof![2 => 65_530usize..=65_560, 1 => 65_561usize..=66_200].boxed(),
+        Tier::Thorough => prop_oneof![4 => 65_530usize..=65_560, 3 => 65_561usize..=70_000, 1 => 131_060usize..=131_100].boxed(),
+    };
+    (17usize..=19, any::<u32>(), any::<u32>(), total, 1usize..=999, 0usize..=40, proptest::collection::vec(any::<u32>(), 64..=64))
+        .prop_map(|(n, mul, off, total, split, overlap, probes)| {
+            let na = std::cmp::max(1, total * split / 1000);
+            let nb = total - na + overlap;
+            let n = if na + std::cmp::max(nb, 1) > (1usize << n) { n + 1 } else { n };
+            ManyCase { n, mul: mul | 1, off, na, nb: std::cmp::max(nb, 1), overlap: std::cmp::min(overlap, na), probes }
+        })
+        .boxed()
+}
+
+pub fn run_many(c: &ManyCase) -> Verdict {
+    let n = c.n;
+    let mask = (1u64 << n) - 1;
+    let pick = |k: usize| -> usize { (((k as u64).wrapping_mul(c.mul as u64).wrapping_add(c.off as u64)) & mask) as usize };
+    ensure!(c.na + c.nb <= (1usize << n) && c.overlap <= c.na, "harness:many", "harness bug: more minterms than assignments");
+    let ma: Vec<usize> = (0..c.na).map(pick).collect();
+    let mb: Vec<usize> = (c.na - c.overlap..c.na - c.overlap + c.nb).map(pick).collect();
+    let mut member = vec![false; 1usize << n];
+    for &m in ma.iter().chain(mb.iter()) {
+        member[m] = true;
+    }
+    let total = member.iter().filter(|&&b| b).count();
+    let a = lib!("from_cubes", Sop::from_cubes(n, ma.iter().map(|&m| Cube::minterm(n, m)).collect()));
+    let b = lib!("from_cubes", Sop::from_cubes(n, mb.iter().map(|&m| Cube::minterm(n, m)).collect()));
+    let r = lib!("a | b on covers of many cubes", &a | &b);
+    if r.num_vars() != n {
+        return fail("many:num_vars", format!("a | b over {} variables has {} variables", n, r.num_vars()));
+    }
+    // probes: members spread over both operands, their neighbours (one bit flipped), and drawn assignments
+    let mut ps: Vec<usize> = Vec::new();
+    for (i, &p) in c.probes.iter().enumerate() {
+        let p = p as usize;
+        ps.push(ma[p % ma.len()]);
+        ps.push(mb[p % mb.len()]);
+        ps.push(ma[p % ma.len()] ^ (1usize << (i % n)));
+        ps.push(p & mask as usize);
+    }
+    ps.extend([ma[0], ma[ma.len() - 1], mb[0], mb[mb.len() - 1], ma[ma.len() / 2], mb[mb.len() / 2]]);
+    let cubes = r.cubes();
+    for &m in &ps {
+        let got = r.value(m);
+        if got != member[m] {
+            return fail(
+                "many:value",
+                format!(
+                    "a | b of minterm covers with {} and {} cubes ({} distinct minterms over {} variables; minterm k is (k*{}+{}) mod 2^{}): the result has {} cubes and value({:#x}) = {}, but that assignment is {}a minterm of an operand",
+                    c.na, c.nb, total, n, c.mul, c.off, n, r.num_cubes(), m, got, if member[m] { "" } else { "not " }
+                ),
+            );
+        }
+        if cubes.iter().any(|q| q.value(m)) != member[m] {
+            return fail("many:cubes", format!("a | b of minterm covers ({} distinct minterms over {} variables): cubes() evaluate to {} on {:#x}", total, n, !member[m], m));
+        }
+    }
+    pass(total >= 65_536, vec![format!("n:{}", n), format!("total:{}", if total >= 131_072 { ">=2^17" } else if total >= 65_536 { ">=2^16" } else { "<2^16" })])
+}
+
 fn _unused(_: Cube) {}
 
 pub fn def() -> PropDef {
@@ -461,6 +542,15 @@ pub fn def() -> PropDef {
             exhaustive: None,
             exhaustive_note: "",
             run: run_wide,
+        }),
+        Box::new(Sub {
+            name: "manycubes",
+            rule: "a | b of two minterm covers over 17..=19 variables whose union has 65530..66200 (quick) / up to 70000 and around 2^17 (thorough) distinct minterms, split anywhere between the operands, with 0..40 common minterms; minterms picked by an affine bijection modulo 2^n. Oracle: value() of the result and the OR of its cubes() on ~260 probes (members of either operand incl. first/middle/last, their one-bit neighbours, drawn assignments) against set membership. Non-trivial = at least 2^16 distinct minterms (the first size where a 16-bit cube index would wrap).",
+            strategy: strategy_many,
+            cases: (3, 24),
+            exhaustive: None,
+            exhaustive_note: "",
+            run: run_many,
         })],
     }
 }
